@@ -215,4 +215,16 @@ PROPS = {
         assumptions=["z3/cvc5 sound", "PyVC level-1 strings (str.lower() compared with a constant is decided as a case-insensitive match)"],
         not_decided="(b)-(g) beyond the bounded oracle",
     ),
+    "C11": dict(
+        design_ref="DESIGN.md 7 C11",
+        technique="contract-based deductive verification (PyVC + z3) with crash obligations: a crash invariant over ghost (committed, pending) database state is proved at every await of Database.apply_migrations; kill-at-every-statement oracle on the real start-up (bounded, exhaustive over statements)",
+        category="other",
+        text="For first start-up and schema migration: at every point where the process can be suspended or killed inside Database.apply_migrations, the durable state satisfies 'number of durably applied migrations == number of durable version rows', "
+             "which is exactly what the next start needs to continue (recorded fix: each migration and its version row are now one transaction; before, 11 of 22 kill points left a database that could never be opened again). "
+             "The bounded oracle kills the real process (os._exit) before every SQL statement of a first start and then starts again.",
+        note="Partial: only clause (a) for the database schema. Crash points inside commit_to_db, append, copy, expunge, pack, rename, delete (acknowledged results survive; no revealed (UIDVALIDITY, UID) is rebound; UIDNEXT above every revealed UID) "
+             "are NOT under contract - DESIGN F29/F30 remain suspected. Torn writes inside sqlite or a single file write are outside the model (A-DB, A-MH).",
+        assumptions=["z3 sound", "PyVC encoding", "A-DB: sqlite DDL is transactional inside BEGIN..COMMIT, durable at once outside; COMMIT is atomic"],
+        not_decided="(b), (c), (d) and every crash point outside apply_migrations",
+    ),
 }
